@@ -2523,8 +2523,13 @@ impl<Front: SocketHandler> ConnectionH2<Front> {
                     if let (H2State::ClientPreface, Position::Server) =
                         (&self.state, &self.position)
                     {
+                        // The buffer also receives the first octets of the
+                        // SETTINGS frame header: only what overlaps the
+                        // 24-octet preface can be compared with it.
+                        let preface = b"PRI * HTTP/2.0\r\n\r\nSM\r\n\r\n";
                         let i = kawa.storage.data();
-                        if !b"PRI * HTTP/2.0\r\n\r\nSM\r\n\r\n".starts_with(i) {
+                        let i = &i[..i.len().min(preface.len())];
+                        if !preface.starts_with(i) {
                             debug!("{} EARLY INVALID PREFACE: {:?}", log_context!(self), i);
                             return self.force_disconnect();
                         }
